@@ -73,7 +73,11 @@ impl HashChecker {
   fn hash_directory(&self, path: &PathBuf) -> Result<[u8; 32], FsError> {
     let mut hasher = Sha256::new();
     for entry in fs::read_dir(path)?.into_iter() {
-      hasher.update(entry?.file_name().as_encoded_bytes());
+      let file_name = entry?.file_name();
+      let bytes = file_name.as_encoded_bytes();
+      // Delimit entries with their length, so that different listings cannot concatenate to the same bytes.
+      hasher.update((bytes.len() as u64).to_le_bytes());
+      hasher.update(bytes);
     }
     Ok(hasher.finalize().into())
   }
